@@ -23,6 +23,7 @@ package control
 //     group that shares the floor node.
 
 import (
+	"context"
 	"errors"
 	"fmt"
 	"io"
@@ -36,6 +37,7 @@ import (
 	"testing/synctest"
 	"time"
 
+	"github.com/cilium/ebpf"
 	"github.com/daeuniverse/dae/common/consts"
 	"github.com/daeuniverse/dae/component/outbound"
 	"github.com/daeuniverse/dae/component/outbound/dialer"
@@ -141,6 +143,64 @@ type c16CGen struct {
 	nodes   []*dialer.Dialer
 	extra   []*dialer.Dialer // direct / block
 	retired bool
+	core    *controlPlaneCore // real-map mode only
+}
+
+// Real-map mode: when bpf(2) is usable, the connectivity array is a real BPF array
+// map and every group's callback is the *production* closure
+// controlPlaneCore.outboundAliveChangeCallback (ip dial mode, i.e. dryrun=false) of a
+// controlPlaneCore that holds that map; generations share the map and are retired
+// with the production ControlPlane.MarkRetired. After each callback the whole array
+// is read back and folded into h.fake. Otherwise (no bpf(2)) the fake array is used.
+var c16CRealUnavailable error
+
+func c16CTryRealMap() *ebpf.Map {
+	if c16CRealUnavailable != nil {
+		return nil
+	}
+	m, err := ebpf.NewMap(&ebpf.MapSpec{Name: "c16_conn", Type: ebpf.Array, KeySize: 4, ValueSize: 4, MaxEntries: c16CSlots})
+	if err != nil {
+		c16CRealUnavailable = err
+		vkNote(c16CUnit, "real BPF array map unavailable (%v): production closure body transcribed over a fake array", err)
+		return nil
+	}
+	return m
+}
+
+func (h *c16CH) syncFromReal() {
+	keys := make([]uint32, c16CSlots)
+	vals := make([]uint32, c16CSlots)
+	var cur ebpf.MapBatchCursor
+	got := 0
+	for got < c16CSlots {
+		n, err := h.real.BatchLookup(&cur, keys[got:], vals[got:], nil)
+		got += n
+		if err != nil {
+			if errors.Is(err, ebpf.ErrKeyNotExist) {
+				break
+			}
+			// batch ops unsupported: fall back to single lookups
+			got = 0
+			for k := uint32(0); k < c16CSlots; k++ {
+				keys[k] = k
+				if e := h.real.Lookup(k, &vals[k]); e != nil {
+					h.failf("harness: lookup of slot %d: %v", k, e)
+				}
+			}
+			got = c16CSlots
+			break
+		}
+	}
+	for i := 0; i < got; i++ {
+		k := keys[i]
+		if k >= c16CSlots {
+			h.failf("harness: batch lookup returned key %d", k)
+		}
+		if h.fake[k] != vals[i] {
+			h.fake[k] = vals[i]
+			h.writes[k]++
+		}
+	}
 }
 
 type c16CH struct {
@@ -162,6 +222,29 @@ type c16CH struct {
 	knownF1 bool
 	knownF2 bool
 	after   bool
+	real    *ebpf.Map
+	prev     *c16CGen // retired generation that is still draining
+	drainOld bool
+}
+
+// evOldGen: a health event inside the retired, still draining generation. The
+// connectivity bits belong to the current generation now: nothing may change.
+func (h *c16CH) evOldGen(n, dom, variant int, revive bool) {
+	if h.prev == nil {
+		return
+	}
+	types := c16CTypes(dom)
+	nt := types[variant%len(types)]
+	if revive {
+		h.logf("old generation: revive #%d %s", n, c16CDomNames[dom])
+		h.prev.nodes[n].MarkAliveForReloadFallback(nt)
+	} else {
+		h.logf("old generation: forced #%d %s", n, c16CDomNames[dom])
+		h.prev.nodes[n].ReportUnavailableForced(nt, errors.New("proxy dial failed"))
+	}
+	h.class("event_in_draining_old_generation")
+	h.nt = true
+	h.verify()
 }
 
 func (h *c16CH) class(c string) { h.classes[c] = true }
@@ -204,6 +287,13 @@ func c16CLatency(p consts.DialerSelectionPolicy) bool {
 
 // callback = production closure body with Map.Update replaced by the fake array.
 func (h *c16CH) callback(gen *c16CGen, ob uint8) func(alive bool, nt *dialer.NetworkType, isInit bool) {
+	if h.real != nil {
+		prod := gen.core.outboundAliveChangeCallback(ob, false)
+		return func(alive bool, nt *dialer.NetworkType, isInit bool) {
+			prod(alive, nt, isInit)
+			h.syncFromReal()
+		}
+	}
 	return func(alive bool, nt *dialer.NetworkType, isInit bool) {
 		if gen.retired {
 			return
@@ -223,6 +313,11 @@ func (h *c16CH) callback(gen *c16CGen, ob uint8) func(alive bool, nt *dialer.Net
 
 func (h *c16CH) build() *c16CGen {
 	gen := &c16CGen{}
+	if h.real != nil {
+		ctx, cancel := context.WithCancel(context.Background())
+		gen.core = &controlPlaneCore{log: h.log, outboundId2Name: map[uint8]string{}, closed: ctx, close: cancel}
+		gen.core.bpf.Store(&bpfObjects{bpfMaps: bpfMaps{OutboundConnectivityMap: h.real}})
+	}
 	opt := &dialer.GlobalOption{Log: h.log, CheckInterval: 30 * time.Second}
 	mk := func(name string) *dialer.Dialer {
 		return dialer.NewDialer(direct.SymmetricDirect, opt, dialer.InstanceOption{DisableCheck: true}, &dialer.Property{Property: D.Property{Name: name}})
@@ -245,12 +340,24 @@ func (h *c16CH) build() *c16CGen {
 		}
 		obs = append(obs, outbound.NewDialerGroup(opt, fmt.Sprintf("g%d", gi), ds, annos, cfg.policy, h.callback(gen, uint8(len(obs)))))
 	}
-	gen.cp = &ControlPlane{controlPlaneGenerationState: controlPlaneGenerationState{outbounds: obs}}
+	gen.cp = &ControlPlane{core: gen.core, controlPlaneGenerationState: controlPlaneGenerationState{outbounds: obs}}
 	return gen
 }
 
-func (h *c16CH) retire(gen *c16CGen) {
+// markRetired is what the reload worker does first with the outgoing generation
+// (ControlPlane.MarkRetired); the generation itself keeps running while it drains.
+func (h *c16CH) markRetired(gen *c16CGen) {
 	gen.retired = true
+	if gen.core != nil {
+		gen.cp.MarkRetired()
+	}
+}
+
+func (h *c16CH) retire(gen *c16CGen) {
+	h.markRetired(gen)
+	if gen.core != nil {
+		defer gen.core.close()
+	}
 	for _, g := range gen.cp.outbounds {
 		_ = g.Close()
 	}
@@ -452,7 +559,17 @@ func (h *c16CH) evReload() {
 	if !overlap {
 		h.failf("InheritDialerHealthFrom reported no overlapping dialer")
 	}
-	h.retire(old)
+	if h.drainOld {
+		// the outgoing generation keeps draining: retired, but its nodes and groups
+		// stay alive and may still report health events (evOldGen).
+		h.markRetired(old)
+		if h.prev != nil {
+			h.retire(h.prev)
+		}
+		h.prev = old
+	} else {
+		h.retire(old)
+	}
 	h.cur = next
 	synctest.Wait()
 
@@ -573,6 +690,12 @@ func (h *c16CH) start() {
 func c16CCase(t *rapid.T) {
 	dialer.ResetGlobalProxyStateForReload()
 	h := c16CNewH(t.Fatalf)
+	if h.real = c16CTryRealMap(); h.real != nil {
+		defer h.real.Close()
+		vkClass(c16CUnit, "production_closure_on_real_bpf_array")
+	} else {
+		vkClass(c16CUnit, "fake_array")
+	}
 	nb := rapid.IntRange(1, 4).Draw(t, "nodes")
 	h.nn = nb
 	for i := 0; i < nb; i++ {
@@ -609,8 +732,14 @@ func c16CCase(t *rapid.T) {
 		}
 		h.gcfg = append(h.gcfg, cfg)
 	}
+	h.drainOld = rapid.Bool().Draw(t, "old_generation_drains")
 	h.start()
-	defer func() { h.retire(h.cur) }()
+	defer func() {
+		if h.prev != nil {
+			h.retire(h.prev)
+		}
+		h.retire(h.cur)
+	}()
 	h.verify()
 
 	maxSteps := 25
@@ -619,7 +748,7 @@ func c16CCase(t *rapid.T) {
 	}
 	steps := rapid.IntRange(3, maxSteps).Draw(t, "steps")
 	fdom := rapid.IntRange(0, 5).Draw(t, "focus_dom")
-	events := []string{"forced", "forced", "forced", "kill_all", "kill_group", "kill_group", "traffic_fail", "traffic_ok", "traffic_ok", "fallback", "fallback_lat", "reload", "reload"}
+	events := []string{"forced", "forced", "forced", "kill_all", "kill_group", "kill_group", "traffic_fail", "traffic_ok", "traffic_ok", "fallback", "fallback_lat", "reload", "reload", "old_gen", "old_gen"}
 	for s := 0; s < steps; s++ {
 		ev := rapid.SampledFrom(events).Draw(t, "ev")
 		n := rapid.IntRange(0, h.nn-1).Draw(t, "n")
@@ -674,6 +803,21 @@ func c16CCase(t *rapid.T) {
 			h.evFallback(n, dom, time.Duration(rapid.IntRange(1, 900).Draw(t, "lat"))*time.Millisecond)
 		case "reload":
 			h.evReload()
+		case "old_gen":
+			if h.prev == nil {
+				h.evReload()
+			}
+			if h.prev != nil {
+				// whole-type kills are what would clear a bit if the retired
+				// generation could still write
+				if rapid.Bool().Draw(t, "old_kill_all") {
+					for x := 0; x < h.nn; x++ {
+						h.evOldGen(x, dom, variant, false)
+					}
+				} else {
+					h.evOldGen(n, dom, variant, rapid.Bool().Draw(t, "old_revive"))
+				}
+			}
 		}
 	}
 	for _, g := range h.gcfg {
